@@ -113,13 +113,20 @@ class Engine:
                     h = mirparse.impl_header(*key)
                     if h is None:
                         continue
-                    rec = [h[0], h[1], h[2], h[3], h[4], {}]
+                    stem = os.path.basename(key[0])[:-3]
+                    if stem == "mod":
+                        stem = os.path.basename(os.path.dirname(key[0]))
+                    elif stem in ("lib", "main"):
+                        stem = os.path.basename(os.path.dirname(os.path.dirname(key[0]))).replace("-", "_")
+                    rec = [h[0], h[1], h[2], h[3], h[4], {}, s.canon_type(h[2], stem), stem]
                     impl_by_span[key] = rec
                     s.impls.append(rec)
                 impl_by_span[key][5][method] = f
                 rec = impl_by_span[key]
                 if rec[0] is None:
                     s.by_short.setdefault("%s::%s" % (strip_generics(rec[2]), method), []).append(f)
+                    if rec[6] != strip_generics(rec[2]):
+                        s.by_short.setdefault("%s::%s" % (rec[6], method), []).append(f)
             elif "<impl at" not in name and "{closure" not in name:
                 segs = name.split("::")
                 if len(segs) >= 2:
@@ -128,6 +135,23 @@ class Engine:
                 # trait default methods appear as module::Trait::method
                 if len(segs) >= 2 and segs[-2][:1].isupper():
                     s.trait_defaults[(segs[-2], segs[-1])] = f
+
+    def fn_module(s, fn):
+        """module (file stem) a MIR function was defined in"""
+        if fn.impl_span:
+            f = fn.impl_span[0]
+        else:
+            m = re.search(r"\{closure@([^:]+):", fn.name)
+            f = m.group(1) if m else None
+        if f:
+            stem = os.path.basename(f)[:-3]
+            if stem == "mod":
+                stem = os.path.basename(os.path.dirname(f))
+            elif stem in ("lib", "main"):
+                stem = os.path.basename(os.path.dirname(os.path.dirname(f))).replace("-", "_")
+            return stem
+        segs = fn.name.split("::")
+        return segs[-2] if len(segs) >= 2 else None
 
     def find(s, short=None, trait=None, self_ty=None, method=None, trait_generics=None):
         """look up a function of the dump: by `Type::method` / `module::fn`, or by impl"""
@@ -139,8 +163,8 @@ class Engine:
                 raise Unmodelled("no function %s in the dump" % short)
             raise Unmodelled("ambiguous function %s: %s" % (short, [f.name for f in c]))
         c = []
-        for t, tg, ty, bl, bounds, methods in s.impls:
-            if t == trait and strip_generics(ty) == self_ty and method in methods:
+        for t, tg, ty, bl, bounds, methods, cself, mod in s.impls:
+            if t == trait and (cself == self_ty or strip_generics(ty) == self_ty) and method in methods:
                 if trait_generics is None or strip_generics(tg) == trait_generics or tg == trait_generics:
                     c.append(methods[method])
         if len(c) == 1:
@@ -590,6 +614,9 @@ class Engine:
             lo = -(1 << (w - 1)) if sg else 0
             hi = (1 << (w - 1)) - 1 if sg else (1 << w) - 1
             return (lo if m.group(2) == "MIN" else hi), m.group(1)
+        if t.startswith("ctor "):
+            nm = re.sub(r"::<.*?>(?=::|$)", "", t[5:])
+            return FnItem("ctor " + nm), "fn"
         m = re.match(r"ZeroSized: (.*)$", t, re.S)
         if m:
             ty = m.group(1).strip()
@@ -615,7 +642,7 @@ class Engine:
             nm = re.sub(r"::<.*?>(?=::|$)", "", t)
             segs = nm.split("::")
             if len(segs) >= 2:
-                r = s.mk_variant(segs[-2], segs[-1], [])
+                r = s.mk_variant(segs[-2], segs[-1], [], segs[-3] if len(segs) >= 3 else None)
                 if r is not None:
                     return r, segs[-2]
             short = "::".join(segs[-2:])
@@ -639,6 +666,9 @@ class Engine:
             return ("use", s.parse_place(t[5:]), False)
         if t.startswith("const "):
             return ("const", t[6:])
+        if re.match(r"[A-Za-z_<]", t):
+            # a tuple-struct / tuple-variant constructor used as a function value
+            return ("const", "ctor " + t)
         raise Unmodelled("operand " + t)
 
     def eval_operand(s, frame, op):
@@ -656,26 +686,64 @@ class Engine:
             return s.place_type(frame, op[1])
         return s.parse_const(frame, op[1])[1]
 
-    def mk_variant(s, ty, variant, fields):
+    def qual(s, name, module):
+        """runtime name of a repository type: bare if unique, `module::Name` if the name is
+        defined in several modules"""
+        return name if len(s.typedefs.get(name, [])) <= 1 else "%s::%s" % (module, name)
+
+    def tdef(s, name, kind=None, variant=None, hint=None):
+        """-> (runtime type name, definition) for `name` (optionally `module::name`)"""
+        if "::" in name:
+            hint, name = name.split("::")[-2], name.split("::")[-1]
+        c = [d for d in s.typedefs.get(name, []) if kind is None or d[1] == kind]
+        if variant is not None:
+            c = [d for d in c if d[1] == "enum" and any(vn == variant for vn, _ in d[2])]
+        if len(c) > 1 and hint:
+            cc = [d for d in c if d[0] == hint]
+            c = cc or c
+        if not c:
+            return None, None
+        return s.qual(name, c[0][0]), c[0]
+
+    def canon_type(s, text, module=None):
+        """canonical runtime name of a type written in source / MIR text"""
+        t = re.sub(r"^&(?:'\w+ )?(?:mut )?", "", text.strip())
+        base = strip_generics(t)
+        if len(s.typedefs.get(base, [])) > 1:
+            path = re.sub(r"<.*>", "", t).split("::")
+            hint = path[-2] if len(path) >= 2 else module
+            q, d = s.tdef(base, hint=hint)
+            if d is not None and (d[0] == hint or hint is None):
+                return q
+            return "%s::%s" % (hint, base)
+        return base
+
+    def mk_variant(s, ty, variant, fields, hint=None):
         ty = strip_generics(ty)
         if ty in BUILTIN_ENUMS and variant in BUILTIN_ENUMS[ty]:
             idx = BUILTIN_ENUMS[ty].index(variant)
             if ty == "Ordering":
                 idx = ORDERING_DISCR[variant]
             return Agg(ty, variant, idx, fields)
-        d = s.typedefs.get(ty)
-        if d and d[0] == "enum":
-            for i, (vn, fs) in enumerate(d[1]):
+        q, d = s.tdef(ty, "enum", variant, hint)
+        if d is not None:
+            for i, (vn, fs) in enumerate(d[2]):
                 if vn == variant:
-                    return Agg(ty, variant, i, fields)
+                    return Agg(q, variant, i, fields)
         return None
 
     def variant_index(s, variant):
-        """an enum variant written without its type (e.g. `CoerceError(..)`): unique lookup"""
-        c = [(ty, i) for ty, d in s.typedefs.items() if d[0] == "enum" for i, (vn, _) in enumerate(d[1]) if vn == variant]
+        """an enum variant written without its type (e.g. `CoerceError(..)`): candidates"""
+        c = []
+        for name, defs in s.typedefs.items():
+            for d in defs:
+                if d[1] == "enum":
+                    for i, (vn, fs) in enumerate(d[2]):
+                        if vn == variant:
+                            c.append((s.qual(name, d[0]), i, fs))
         for ty, vs in BUILTIN_ENUMS.items():
             if variant in vs:
-                c.append((ty, ORDERING_DISCR[variant] if ty == "Ordering" else vs.index(variant)))
+                c.append((ty, ORDERING_DISCR[variant] if ty == "Ordering" else vs.index(variant), None))
         return c
 
     def parse_rvalue(s, t):
@@ -826,21 +894,22 @@ class Engine:
             vals = {n: s.eval_operand(frame, o) for n, o in rv[2]}
             path = re.sub(r"::<.*?>(?=::|$)", "", rv[1])
             segs = [strip_generics(x) for x in path.split("::")]
-            d = s.typedefs.get(name)
-            if d and d[0] == "struct":
-                order = d[1]
-                return Agg(name, None, 0, [vals[f] for f in order] if all(f in vals for f in order) else list(vals.values()))
+            cands = [d for d in s.typedefs.get(name, []) if d[1] == "struct" and set(d[2]) == set(vals)]
+            if len(cands) > 1 and len(segs) >= 2:
+                cands = [d for d in cands if d[0] == segs[-2]] or cands
+            if cands:
+                d = cands[0]
+                return Agg(s.qual(name, d[0]), None, 0, [vals[f] for f in d[2]])
             # enum struct-variant: Type::Variant { .. }
             if len(segs) >= 2:
-                d = s.typedefs.get(segs[-2])
-                if d and d[0] == "enum":
-                    for i, (vn, fs) in enumerate(d[1]):
+                q, d = s.tdef(segs[-2], "enum", segs[-1], segs[-3] if len(segs) >= 3 else None)
+                if d is not None:
+                    for i, (vn, fs) in enumerate(d[2]):
                         if vn == segs[-1]:
-                            return Agg(segs[-2], vn, i, [vals[f] for f in fs])
-            c = s.variant_index(name)
+                            return Agg(q, vn, i, [vals[f] for f in fs])
+            c = [x for x in s.variant_index(name) if x[2] is not None and set(x[2]) == set(vals)]
             if len(c) == 1:
-                ty, i = c[0]
-                fs = s.typedefs[ty][1][i][1]
+                ty, i, fs = c[0]
                 return Agg(ty, name, i, [vals[f] for f in fs])
             # foreign struct (pallas, std): keep declared order of the literal, remember names
             a = Agg(name, None, 0, list(vals.values()))
@@ -852,32 +921,29 @@ class Engine:
             segs = path.split("::")
             vals = [s.eval_operand(frame, o) for o in rv[2]]
             if len(segs) >= 2:
-                r = s.mk_variant(segs[-2], segs[-1], vals)
+                r = s.mk_variant(segs[-2], segs[-1], vals, segs[-3] if len(segs) >= 3 else None)
                 if r is not None:
                     return r
             name = segs[-1]
-            d = s.typedefs.get(name)
-            if d and d[0] == "struct":
-                return Agg(name, None, 0, vals)
-            c = s.variant_index(name)
+            q, d = s.tdef(name, "struct", hint=segs[-2] if len(segs) >= 2 else None)
+            if d is not None:
+                return Agg(q, None, 0, vals)
+            c = [x for x in s.variant_index(name) if x[2] is None or len(x[2]) == len(vals)]
             if len(c) == 1:
                 return Agg(c[0][0], name, c[0][1], vals)
-            if len(c) > 1 and len(segs) >= 2:
-                for ty, i in c:
-                    if ty == segs[-2]:
-                        return Agg(ty, name, i, vals)
             if len(c) > 1:
                 # disambiguate by the type of the destination (set by the caller)
-                want = strip_generics(s._dest_ty or "")
-                for ty, i in c:
-                    if ty == want:
+                want = s.canon_type(s._dest_ty or "", getattr(s, "_cur_module", None))
+                for ty, i, _ in c:
+                    if ty == want or ty.split("::")[-1] == want.split("::")[-1] and ty.split("::")[0] in (s._dest_ty or ""):
                         return Agg(ty, name, i, vals)
-                raise Unmodelled("ambiguous variant %s: %s" % (name, c))
+                raise Unmodelled("ambiguous variant %s: %s (dest %s)" % (name, [x[0] for x in c], s._dest_ty))
             return Agg(name, None, 0, vals)
         raise Unmodelled("rvalue kind " + k)
 
     foreign_fields = {}
     _dest_ty = None
+    _cur_module = None
 
     def length_of(s, v):
         if isinstance(v, Ref):
@@ -1176,7 +1242,7 @@ class Engine:
     STD_ROOTS = ("std", "core", "alloc", "hashbrown")
 
     def is_std_path(s, segs):
-        return segs[0] in s.STD_ROOTS or segs[-2] in ("Option", "Result", "Vec", "String", "HashMap", "HashSet", "BTreeMap", "BTreeSet", "Box", "str", "Iterator")
+        return segs[0] in s.STD_ROOTS or len(segs) >= 2 and segs[-2] in ("Option", "Result", "Vec", "String", "HashMap", "HashSet", "BTreeMap", "BTreeSet", "Box", "str", "Iterator")
 
     def call_model(s, key, args, callee, frame=None):
         m = s.models.get(key)
@@ -1190,6 +1256,8 @@ class Engine:
         t = re.sub(r"^&(?:'\w+ )?(?:mut )?", "", t)
         base = strip_generics(t)
         # type parameters (single identifiers that are not known types) resolve by the runtime value
+        if base in s.typedefs and len(s.typedefs[base]) > 1:
+            return s.canon_type(t, s.fn_module(frame.fn) if frame is not None else None), False
         if re.fullmatch(r"[A-Z]\w{0,2}|Self|__\w+", base) and base not in s.typedefs:
             if args:
                 return s.runtime_type(args[0]), True
@@ -1203,6 +1271,7 @@ class Engine:
         return base, False
 
     def call_trait(s, frame, self_t, trait, tg, method, args, callee):
+        s._cur_module = s.fn_module(frame.fn) if frame is not None else None
         sname, generic = s.self_name(frame, self_t, args)
         # closures and function items
         if trait in ("Fn", "FnMut", "FnOnce"):
@@ -1210,16 +1279,16 @@ class Engine:
         # user impls in the dump
         tgs = strip_generics(tg) if tg else ""
         exact, structural, blanket = [], [], []
-        for t, itg, ty, bl, bounds, methods in s.impls:
+        for t, itg, ty, bl, bounds, methods, cself, mod in s.impls:
             if t != trait or method not in methods:
                 continue
             if itg and tg and trait in ("From", "TryFrom", "Into", "TryInto", "PartialEq", "Add", "Sub", "FromIterator", "Extend", "AsRef", "Borrow", "PartialOrd"):
-                if _norm_ty(itg) != _norm_ty(tg) and not re.fullmatch(r"[A-Z]\w?", tg.strip()):
+                if s.canon_type(itg, mod) != s.canon_type(tg, s.fn_module(frame.fn) if frame is not None else None) and _norm_ty(itg) != _norm_ty(tg) and not re.fullmatch(r"[A-Z]\w?", tg.strip()):
                     continue
             if bl:
                 blanket.append((methods[method], bounds)); continue
             ity = ty.strip()
-            base = strip_generics(re.sub(r"^&(?:'\w+ )?(?:mut )?", "", ity))
+            base = cself
             if base == sname:
                 (structural if "<" in ity and base in ("Option", "Vec", "HashMap", "Box", "BTreeMap", "HashSet") else exact).append(methods[method])
         for cands in (exact, structural):
@@ -1232,11 +1301,11 @@ class Engine:
             for f, bounds in blanket:
                 need = re.findall(r":\s*([A-Za-z_][\w:]*)", bounds)
                 need = [strip_generics(n) for n in need if strip_generics(n) not in ("Sized", "Debug", "Clone")]
-                if all(any(t == n and strip_generics(ty) == sname for t, _, ty, bl, _, _ in s.impls) or n in ("Into",) for n in need):
+                if all(any(r[0] == n and r[6] == sname for r in s.impls) or n in ("Into",) for n in need):
                     return s.call_fn(f, args)
         # trait default method in the dump
         f = s.trait_defaults.get((trait, method))
-        if f is not None and any(t == trait and strip_generics(ty) == sname for t, _, ty, _, _, _ in s.impls):
+        if f is not None and any(r[0] == trait and r[6] == sname for r in s.impls):
             return s.call_fn(f, args)
         if f is not None and not s.is_std_trait(trait):
             return s.call_fn(f, args)
@@ -1267,6 +1336,12 @@ class Engine:
         if isinstance(f, Closure):
             return s._call_closure(f, None, args)
         if isinstance(f, FnItem):
+            if f.name.startswith("ctor "):
+                segs = f.name[5:].split("::")
+                r = s.mk_variant(segs[-2], segs[-1], list(args)) if len(segs) >= 2 else None
+                if r is None:
+                    r = Agg(strip_generics(segs[-1]), None, 0, list(args))
+                return r
             return s.dispatch(None, f.name, args)
         raise Unmodelled("call of %s" % type(f).__name__)
 
